@@ -25,10 +25,12 @@ META = {
 ERRNOS = [errno.EACCES, errno.EPERM, errno.EROFS, errno.ENOSPC, errno.EIO, errno.ENAMETOOLONG, errno.ENOENT, errno.EEXIST,
           errno.ENOTDIR, errno.EDQUOT]
 LAYOUTS = ['alt-first-use', 'top-sticky', 'home', 'alt-existing', 'top-sticky-and-alt', 'collision']
+# (the fault-index obligations use the first six; the one-cause obligation adds the cross-volume home fallback)
+LAYOUTS_D = LAYOUTS + ['fallback-cross-volume']
 
 
 def scenario(kind, layout):
-    l = LAYOUTS[layout]
+    l = LAYOUTS_D[layout]
     nodes = [W.d('/h'), W.d('/v/d'), W.d('/h/w'), W.f('/v/keep', 'KEEP', 0o644, 800)] + K.sentinels('/v/out')
     src = '/v/d/x'
     if l == 'top-sticky':
@@ -44,24 +46,30 @@ def scenario(kind, layout):
         nodes += K.trashed('/v/.Trash-1000', 'x', 'd/x', '2019-01-01T00:00:00', 'file', 2000)
     nodes += K.entry_nodes(kind, src, 1000)
     cwd = src.rsplit('/', 1)[0]
+    args, e = [], scen.env()
+    if l == 'fallback-cross-volume':
+        nodes += [W.f('/v/.Trash', 'file', 0o644, 909), W.f('/v/.Trash-1000', 'file', 0o644, 910)]
+        args = ['--home-fallback']
+        e['TRASH_ENABLE_HOME_FALLBACK'] = '1'
     world = W.W(mounts=K.MOUNTS, cwd=cwd, nodes=nodes)
-    return world, C('put', ['--', 'x'], scen.env(), cwd=cwd), src
+    return world, C('put', args + ['--', 'x'], e, cwd=cwd), src
 
 
-def _run(kind, layout, faults, persistent):
+def _run(kind, layout, faults, persistent, hook=None):
     world, step, src = scenario(kind, layout)
     m = W.build_model(world)
     m.max_ops = 8000
     before = m.snap('/')
-    hook = scen.FaultHook(faults, persistent) if faults else None
+    if hook is None:
+        hook = scen.FaultHook(faults, persistent) if faults else None
     _, r = scen.run_model(None, [step], hook=hook, model=m)
     after = m.snap('/')
     return m, before, r[0], after, src, hook
 
 
-def judge(kind, layout, faults, persistent, tag):
-    m, before, r, after, src, hook = _run(kind, layout, faults, persistent)
-    label = '%s:%s' % (K.KINDS[kind], LAYOUTS[layout])
+def judge(kind, layout, faults, persistent, tag, hook=None):
+    m, before, r, after, src, hook = _run(kind, layout, faults, persistent, hook)
+    label = '%s:%s' % (K.KINDS[kind], LAYOUTS_D[layout])
     if r.get('nonterminating'):
         names = sorted(set(n for (_, n, _) in hook.injected))
         return rt.fail('C17:nonterminating:%s:%s' % (tag, '+'.join(names)),
@@ -69,9 +77,13 @@ def judge(kind, layout, faults, persistent, tag):
     if not hook.injected:
         return rt.ok()
     inj = '+'.join('%s=%s' % (n, errno.errorcode.get(e, e)) for (_, n, e) in hook.injected[:2])
-    x = c01.oracle([before, r, after], 'x', src, 'entry', 'fault:' + '+'.join(n for (_, n, _) in hook.injected[:2]))
+    flabel = tag if tag.startswith('one-cause') else 'fault:' + '+'.join(n for (_, n, _) in hook.injected[:2])
+    x = c01.oracle([before, r, after], 'x', src, 'entry', flabel)
     if x and x != 'twin-reached':
-        return x.replace('C01:', 'C17:', 1) + ' [faults injected: %s; %s]' % (inj, label)
+        key, _, detail = x.partition(' :: ')
+        x = rt.fail(key.replace('C01:', 'C17:', 1), detail + ' [faults injected: %s; %s]' % (inj, label))
+        if x and x != 'twin-reached':
+            return x
     if r['exc']:
         return rt.fail('C17:traceback:%s:fault:%s' % (r['exc'].split(':')[0], '+'.join(n for (_, n, _) in hook.injected[:2])),
                        '%s [faults injected: %s; %s]' % (r['exc'], inj, label))
@@ -103,6 +115,56 @@ def _pair(kind, layout, k1, e1, dk, e2):
     with rt.untraced():
         rt.begin((K.KINDS[kind], LAYOUTS[layout], k1, errno.errorcode[ERRNOS[e1]], k1 + 1 + dk, errno.errorcode[ERRNOS[e2]]))
         return judge(kind, layout, {k1: ERRNOS[e1], k1 + 1 + dk: ERRNOS[e2]}, False, 'pair')
+
+
+# one cause, many faulted calls: a directory (or a whole volume) that cannot be modified
+DIRS = ['SRC-PARENT', 'SRC', '/v', '/v/.Trash', '/v/.Trash/1000', '/v/.Trash/1000/files', '/v/.Trash/1000/info', '/v/.Trash-1000',
+        '/v/.Trash-1000/files', '/v/.Trash-1000/info', '/h/.local/share/Trash', '/h/.local/share/Trash/files', '/h/.local/share/Trash/info',
+        'VOLUME:/v', 'VOLUME:/', '/h/.local/share', '/h']
+DIR_ERRNOS = [errno.EACCES, errno.EROFS, errno.ENOSPC]
+
+
+def _dirfault(kind, layout, dsel, e):
+    with rt.untraced():
+        world, step, src = scenario(kind, layout)
+        d = DIRS[dsel]
+        rt.begin((K.KINDS[kind], LAYOUTS_D[layout], d, errno.errorcode[DIR_ERRNOS[e]]))
+        if d == 'SRC-PARENT':
+            hook = scen.DirFaultHook(src.rsplit('/', 1)[0], DIR_ERRNOS[e])
+        elif d == 'SRC':
+            hook = scen.DirFaultHook(src, DIR_ERRNOS[e])
+        elif d.startswith('VOLUME:'):
+            hook = scen.DirFaultHook(None, DIR_ERRNOS[e], volume=d[len('VOLUME:'):])
+        else:
+            hook = scen.DirFaultHook(d, DIR_ERRNOS[e])
+        return judge(kind, layout, None, False, 'one-cause:%s:%s' % (LAYOUTS_D[layout], d), hook)
+
+
+def w_dirfault(kind: int, layout: int, dsel: int, e: int) -> str:
+    """
+    pre: PARTITION is None or layout == PARTITION
+    pre: 0 <= kind < 6 and 0 <= layout < 7 and 0 <= dsel < 17 and 0 <= e < 3
+    post: _ == ''
+    """
+    return _dirfault(rt.sel(kind, 6), rt.sel(layout, 7), rt.sel(dsel, 17), rt.sel(e, 3))
+
+
+FAR_ERRNOS = [errno.EACCES, errno.EROFS, errno.ENOSPC]
+
+
+def _farpair(kind, layout, k1, k2, e):
+    with rt.untraced():
+        rt.begin((K.KINDS[kind], LAYOUTS[layout], k1, k2, errno.errorcode[FAR_ERRNOS[e]]))
+        return judge(kind, layout, {k1: FAR_ERRNOS[e], k2: FAR_ERRNOS[e]}, False, 'far-pair')
+
+
+def w_farpair(kind: int, layout: int, k1: int, k2: int, e: int) -> str:
+    """
+    pre: PARTITION is None or (kind == PARTITION[0] and layout == PARTITION[1])
+    pre: 0 <= kind < 6 and 0 <= layout < 6 and 0 <= k1 < 72 and 0 <= k2 < 72 and k1 < k2 and 0 <= e < 3
+    post: _ == ''
+    """
+    return _farpair(rt.sel(kind, 6), rt.sel(layout, 6), rt.sel(k1, 72), rt.sel(k2, 72), rt.sel(e, 3))
 
 
 _LEN = {}
@@ -154,7 +216,13 @@ def obligations(tier):
         CH('W_persistent_fault', MOD, 'w_persistent', timeout=1800, partitions=parts, engine='W', regime='selector', encodes=enc,
            stubs=K.STUBS, bounds='same space; after the first injection every later call of the same kind in the same directory fails too'),
     ]
+    obs.append(CH('W_one_cause_directory_not_modifiable', MOD, 'w_dirfault', timeout=1800, partitions=list(range(7)), engine='W', regime='selector', encodes=enc,
+                  stubs=K.STUBS + ['every system call adding / removing / renaming an entry of directory D (or of any directory of a volume) fails with one errno; rename across devices answers EXDEV first, as Linux does'],
+                  bounds='17 directories D (parent of the source, the source, volume root, .Trash, $uid, files, info, .Trash-$uid, files, info, home trash, files, info, whole volume /v, whole volume /, ~/.local/share, ~) '
+                         'x {EACCES, EROFS, ENOSPC} x 6 kinds x 7 layouts (incl. the cross-volume home fallback): arbitrarily many faulted calls with one cause'))
     if tier == 'thorough':
+        obs.append(CH('W_fault_pairs_far_apart', MOD, 'w_farpair', timeout=7000, partitions=[(k, l) for k in (0, 2, 3) for l in range(6)], twin=False, engine='W', regime='selector',
+                      encodes=enc, stubs=K.STUBS, bounds='pairs k1<k2<72 of faulted calls with the same errno from {EACCES, EROFS, ENOSPC}; 3 kinds x 6 layouts'))
         obs.append(CH('W_fault_pairs', MOD, 'w_pair', timeout=7000, partitions=[(k, l) for k in (0, 2, 3) for l in range(6)], twin=False, engine='W', regime='selector',
                       encodes=enc, stubs=K.STUBS, bounds='pairs (k1,e1),(k1+1+dk,e2): k1<64, dk<6, e1 in {EACCES,ENOSPC,EIO,ENAMETOOLONG}, e2 in {EACCES,ENOSPC,EIO,EEXIST}; 3 kinds x 6 layouts'))
     return obs
